@@ -87,7 +87,8 @@ ListVerdict(e) ==
        ELSE "list-unexplained"
 
 Verdict(e) == CASE e.ev = "Reset"  -> (IF e.S = SectorSize THEN "ok" ELSE "shard-sector-size-mismatch")
-                [] e.ev = "Build"  -> "ok"                                   \* an error ends the behaviour (allowed)
+                \* an error ends the behaviour (allowed); a panic / hang of build() is not "reports an error"
+                [] e.ev = "Build"  -> (IF e.res \in {"panic", "hang"} THEN "build-" \o e.res ELSE "ok")
                 [] e.ev = "Open"   -> (IF e.res = "ok" THEN "ok" ELSE "open-failed")
                 [] e.ev = "File"   -> FileVerdict(e)
                 [] e.ev = "Absent" -> AbsentVerdict(e)
